@@ -289,6 +289,20 @@ func Message(flows []FlowDef, recs ...Rec) *entities.Message {
 	return m
 }
 
+// MessageWithRefusedRecord is Message with one more record at the end that the aggregation process
+// cannot take: a copy of the first record's elements without sourceTransportPort (no flow key).
+func MessageWithRefusedRecord(flows []FlowDef, recs ...Rec) *entities.Message {
+	m := Message(flows, recs...)
+	var bad []entities.InfoElementWithValue
+	for _, el := range RecordElements(flows[recs[0].Flow], recs[0]) {
+		if el.GetName() != "sourceTransportPort" {
+			bad = append(bad, el)
+		}
+	}
+	m.GetSet().AddRecordV2(bad, 256)
+	return m
+}
+
 // RecordElements builds the decoded elements of one record.
 func RecordElements(f FlowDef, r Rec) []entities.InfoElementWithValue {
 	var els []entities.InfoElementWithValue
